@@ -55,8 +55,11 @@ def frames(case):
     return base, feed
 
 
-def run_case(case, client_obj=None, extra_kwargs=None, want_client=False, omit_model_parameters=False):
-    """returns dict: {'ok': bool, 'tables': {name: DataFrame}, 'exc': (type name, msg)}"""
+def run_case(case, client_obj=None, extra_kwargs=None, want_client=False, omit_model_parameters=False, base_frame=None):
+    """returns dict: {'ok': bool, 'tables': {name: DataFrame}, 'exc': (type name, msg)}
+
+    base_frame: pass this very DataFrame object as preprocessed_data (a caller that keeps one baseline frame across polls)
+    instead of a fresh copy built from case['baseline']"""
     client = _imp()
     base, feed = frames(case)
     p = case["params"]
@@ -85,7 +88,7 @@ def run_case(case, client_obj=None, extra_kwargs=None, want_client=False, omit_m
             percent_reporting_threshold=p["percent_reporting_threshold"],
             geographic_unit_type=case["unit_type"],
             raw_config=gen.make_config(case),
-            preprocessed_data=base.copy(),
+            preprocessed_data=(base_frame if base_frame is not None else base.copy()),
             **({} if omit_model_parameters else {"model_parameters": dict(p.get("model_parameters", {}))}),
             **kwargs,
         )
@@ -137,10 +140,15 @@ class SolverCapture:
     records: list of dicts {"op": "fit"|"predict", ...}; stub(op, index, args, real_result) may replace a predict result;
     fault(fit_index, kwargs) may raise to inject a solver failure."""
 
-    def __init__(self, stub=None, fault=None, keep_arrays=True):
+    def __init__(self, stub=None, fault=None, keep_arrays=True, inner_fault=None):
         self.records = []
         self.stub = stub
         self.fault = fault
+        # inner_fault(j, in_retry, tau): called before every per-quantile solve (_fit / _fit_with_regularization), j counts the
+        # solves of first attempts only; may raise to make the solver fail in the middle of a multi-quantile fit
+        self.inner_fault = inner_fault
+        self.in_retry = False
+        self.n_inner = 0
         self.keep = keep_arrays
         self.n_fit = 0
         self.n_pred = 0
@@ -166,6 +174,7 @@ class SolverCapture:
             cap.records.append(rec)
             if cap.fault is not None:
                 cap.fault(i, rec, kwargs)
+            cap.in_retry = kwargs.get("normalize_weights", True) is False
             r = cap.orig_fit(slf, x, y, *args, **kwargs)
             rec["coefficients"] = np.array(slf.coefficients, dtype=float).copy()
             return r
@@ -184,6 +193,21 @@ class SolverCapture:
             cap.records.append(rec)
             return r
 
+        def make_inner(orig):
+            def inner(slf, x, y, weights, tau, *args, **kwargs):
+                if cap.inner_fault is not None:
+                    j = cap.n_inner
+                    if not cap.in_retry:
+                        cap.n_inner += 1
+                    cap.inner_fault(j, cap.in_retry, tau)
+                return orig(slf, x, y, weights, tau, *args, **kwargs)
+            return inner
+
+        self.orig_inner = {}
+        for name in ("_fit", "_fit_with_regularization"):
+            if hasattr(Q, name):
+                self.orig_inner[name] = getattr(Q, name)
+                setattr(Q, name, make_inner(self.orig_inner[name]))
         Q.fit = fit
         Q.predict = predict
         return self
@@ -191,4 +215,6 @@ class SolverCapture:
     def __exit__(self, *exc):
         self.Q.fit = self.orig_fit
         self.Q.predict = self.orig_predict
+        for name, f in self.orig_inner.items():
+            setattr(self.Q, name, f)
         return False
